@@ -106,7 +106,7 @@ def check_align(rep, facts, rule):
                 rep.check(good, rule + '.zeros', 'resolve_aligns pads with b"\\x00" * padding',
                           lambda node=node: Finding(rule + '.zeros', 'resolve_aligns', node, 'alignment padding is not a run of zero bytes', line=node.lineno))
                 at_start = (cnt is not None and cnt[0] == 'mcall' and cnt[2] == 'resolution_size' and cnt[1] == pa.item
-                            and cnt[3] == (('lv', 'position'),))
+                            and cnt[3] == (('lv', pa.pos_var),))
                 rep.check(at_start, rule + '.at-start', 'padding = item.resolution_size(offset at which the align item starts)',
                           lambda node=node, cnt=cnt: Finding(rule + '.at-start', 'resolve_aligns', node,
                                                              'padding {} is not resolution_size of the running offset at the align item'.format(show(cnt) if cnt else '?'), line=node.lineno))
